@@ -88,7 +88,7 @@ def order_of(rng, style, n, T, F):
 
 # ---- generator ---------------------------------------------------------------------------------------------------------
 
-def gen_case(rng, k, tier, ps=PS, max_epochs=4):
+def gen_case(rng, k, tier, ps=PS):
     ncl = rng.choice([2, 3, 3])
     cfg = []
     base = (rng.choice(TS), rng.choice(FS), rng.choice(ps))
@@ -96,7 +96,8 @@ def gen_case(rng, k, tier, ps=PS, max_epochs=4):
         cfg.append(base if rng.random() < 0.6 else (rng.choice(TS), rng.choice(FS), rng.choice(ps)))
     backends = [("sql" if (k + i) % 2 else "mem") if i == 1 else rng.choice(["mem", "mem", "sql"]) for i in range(ncl)]
     ops = ["msgwin"] + [f"client {i} {backends[i]} {cfg[i][0]} {cfg[i][1]} {cfg[i][2]}" for i in range(ncl)] + ["group"]
-    nep = rng.choice([1, 2, 2, 3, 3, 4]) if max_epochs <= 4 else rng.randrange(max_epochs - 1, max_epochs + 1)
+    deep = rng.random() < 0.06           # a few long histories: epoch distances up to 6 (beyond every P and the outer look-back)
+    nep = rng.choice([6, 7]) if deep else rng.choice([1, 2, 2, 3, 3, 4])
     senders = [0] if rng.random() < 0.55 else [0, rng.randrange(1, ncl)]
     nev = 0
     budget = 26 if tier == "quick" else 40
@@ -138,7 +139,7 @@ def gen_case(rng, k, tier, ps=PS, max_epochs=4):
                 styles.append(style)
                 chain = [evs[g] for g in order_of(rng, style, len(evs), T, F)]
                 cut = rng.randrange(0, len(chain) + 1) if rng.random() < 0.45 else len(chain)
-                delay = rng.choice([1, 1, 2, P, P, P + 1])
+                delay = rng.choice([1, 1, 2, P, P, P + 1, 6] if deep else [1, 1, 2, P, P, P + 1])
                 now.append((j, chain[:cut]))
                 if chain[cut:]:
                     later.setdefault(e + max(delay, 1), []).append((j, chain[cut:]))
